@@ -71,11 +71,11 @@ class UnitResult:
         self.smt_ms = 0
 
 
-def run_unit(unit, cover=False, threads=4, rlimit=None, keep=True):
+def run_unit(unit, cover=False, threads=4, rlimit=None, keep=True, skip=()):
     res = UnitResult(unit.name + ("__cover" if cover else ""))
     t0 = time.time()
     try:
-        text, meta = build_unit(unit, cover=cover)
+        text, meta = build_unit(unit, cover=cover, skip=skip)
     except (LostAnchor, Unsupported, ScanError) as e:
         res.status = "undecided"
         res.reason = f"{type(e).__name__}: {e}"
@@ -150,12 +150,36 @@ def run_unit(unit, cover=False, threads=4, rlimit=None, keep=True):
         if not mods and kind != "other":
             errs_by_mod.setdefault("", []).append(dict(kind=kind, title=title, text=btxt[:3000], lines=lns, cover=False))
     if hard or vr.get("encountered-vir-error") or not tm.get("smt"):
+        # isolate: if every front-end error sits inside item modules, rerun without them so that the
+        # remaining obligations are still decided; the skipped ones stay undecided
+        bad_mods = set()
+        all_located = bool(hard)
+        for (lvl, title, btxt) in blocks:
+            if lvl != "error" or title.startswith("aborting due to") or VERIF_FAIL.search(title) or RLIMIT.search(title):
+                continue
+            ms = {mod_of_line[l] for l in block_lines(btxt, path) if l in mod_of_line}
+            if not ms:
+                all_located = False
+            bad_mods |= ms
+        if all_located and bad_mods and not skip and len(bad_mods) <= 6:
+            r2 = run_unit(unit, cover=cover, threads=threads, rlimit=rlimit, keep=keep, skip=tuple(sorted(bad_mods)))
+            for mod in bad_mods:
+                mm = meta["modules"][mod]
+                for fm in mm["fns"]:
+                    r2.fns[(mod, fm["fn"])] = dict(status="undecided", time_us=0, rlimit=0, cover_hit=False,
+                                                   errors=[dict(kind="other", title="front-end error: " + hard[0].split("\n")[0][:200],
+                                                                text=hard[0][:1500], lines=[], cover=False)])
+                r2.meta["modules"][mod] = mm
+            r2.isolated = sorted(bad_mods)
+            return r2
         res.status = "undecided"
         res.reason = "front-end error (construct outside the subset / prelude gap): " + (hard[0][:600] if hard else "vir error")
     for mod, mm in meta["modules"].items():
         if mm["mode"] != "verify":
             continue
         for fm in mm["fns"]:
+            if fm.get("mode") == "decl":
+                continue
             key = (mod, fm["fn"])
             v = verdict.get(key)
             errs = errs_by_mod.get(mod, [])
